@@ -19,11 +19,13 @@ for m in $(ls -d $DIR/m[0-9]* 2>/dev/null | sort); do
   feat=""; grep -q "rand::" $m/demo.rs && feat="--features rand"
   cp $m/demo.rs $WT/examples/demo_$k.rs
   (cd $WT && timeout 600 cargo run --offline --release $feat --example demo_$k) >>$log 2>&1; clean1=$?
+  rm -f $WT/examples/demo_$k.rs   # (an example needing a feature would break the plain `cargo test` build)
   if ! git -C $WT apply $m/patch.diff >>$log 2>&1; then echo "$P $k: PATCH-DOES-NOT-APPLY" | tee $m/eval.txt; continue; fi
   # the crate's own random tests are flaky (their f64 oracle double-rounds, ~1 run in 6 fails on the
   # unmodified tree): a mutant "passes the suite" if one of up to three runs is fully green
   tests=1
   for try in 1 2 3; do (cd $WT && timeout 1500 cargo test --offline) >>$log 2>&1 && { tests=0; break; }; done
+  cp $m/demo.rs $WT/examples/demo_$k.rs
   (cd $WT && timeout 600 cargo run --offline --release $feat --example demo_$k) >>$log 2>&1; mut=$?
   (cd $ME/engine && cargo build --offline --profile checked) >>$log 2>&1; build=$?
   rm -rf $ME/out/replays
